@@ -130,6 +130,16 @@ CHECKS = {
         "inspect.signature and ast are the reference.",
         "6 C12",
     ),
+    "C13": (
+        "exploration",
+        "runtime monitoring: per-position expectation oracle (inspect.signature + logged traces) against the stubs rendered under each ExistingAnnotationStrategy",
+        "Generated signatures with class/generic/Optional/string/NewType annotations on random subsets of positions and None defaults are "
+        "traced for real (or through constructed CallTraces with random argument subsets); under REPLICATE, OMIT and IGNORE every parameter and "
+        "return position of the rendered stub is compared with the expected annotation (source annotation kept / Optional-wrapped, omitted, "
+        "traced type applied, nothing invented, Iterator/Generator construction for generators).",
+        "Traced types are shrink_types over the logged traces with rewriting disabled; stub text read by vf/oracle/stubeval.py.",
+        "6 C13",
+    ),
 }
 
 PENDING = {}
